@@ -2,7 +2,11 @@
     Only statements; every proof is [exact <lemma>].  Model: Model/Optim.v (real-number instance).
     Oracles: the optimiser [O] (nlopt / scipy.optimize) constrained by [contract]; the likelihoods
     [ll_multinom], [ll_plain] : list R -> option R ([None] = NaN) are arbitrary functions.
-    [_refuted] theorems are clauses that the faithful model of the snapshot violates (findings). *)
+    The default definitions ([opt], [optimize_lbfgsb], [optimize_log_lbfgsb], [optimize_grid], [perturb_params]) model the
+    current code, i.e. after the repairs c501335, b08df5e, a803c6e, 85f4799, 87150b4, 64356e4 of /repo; the [_snapshot]
+    definitions are the forms of the original snapshot.  [_refuted] theorems are clauses that the faithful model of the
+    snapshot violates (the findings that led to those repairs) or, for the narrow box, that the current code still violates
+    (known finding). *)
 From Coq Require Import ZArith Reals List Bool Lra Lia.
 From Dadi Require Import Base.Num Base.NumR Model.Optim Proofs.OptimAll.
 Import ListNotations.
@@ -39,14 +43,15 @@ Theorem C12_object_func_never_out_of_bounds :
   Forall (fun e => in_bounds lower upper e = true) (snd (object_func ll_multinom ll_plain params lower upper multinom fixed s)).
 Proof. exact object_func_never_out_of_bounds. Qed.
 
-(** *** NLopt_mod.opt, log_opt=False, under the oracle contract *)
+(** *** NLopt_mod.opt as it stands, log_opt on and off, under the oracle contract *)
 Theorem C12_opt_contract :
-  forall (ll_multinom ll_plain : list R -> option R) (O : optimiser R) p0 lower upper fixed multinom w,
-  opt ll_multinom ll_plain O p0 lower upper fixed multinom false = Some w ->
+  forall (ll_multinom ll_plain : list R -> option R) (O : optimiser R) p0 lower upper fixed multinom lg w d0,
+  opt ll_multinom ll_plain O p0 lower upper fixed multinom lg = Some w ->
+  project_down p0 fixed = Some d0 -> (lg = true -> positive d0) ->
   contract true (w_lo w) (w_hi w) (w_start w)
-           (fun x => fst (opt_objective ll_multinom ll_plain multinom fixed false x)) (w_oracle w) ->
+           (fun x => fst (opt_objective ll_multinom ll_plain multinom fixed lg x)) (w_oracle w) ->
   agrees (w_x w) fixed /\
-  (exists xf, w_x w = project_up 0 xf fixed /\ box_ok (w_lo w) (w_hi w) xf = true) /\
+  (exists xf, w_x w = project_up 0 (tr lg xf) fixed /\ box_ok (w_lo w) (w_hi w) xf = true) /\
   ll_guard ll_multinom ll_plain multinom (w_x w) = w_f w /\
   ll_guard ll_multinom ll_plain multinom (subst_fixed p0 fixed) <= w_f w /\
   hd_error (w_evals w) = Some (subst_fixed p0 fixed).
@@ -54,17 +59,32 @@ Proof. exact opt_contract. Qed.
 Print Assumptions C12_opt_contract.
 
 Theorem C12_opt_free_entries_within_bounds :
-  forall (ll_multinom ll_plain : list R -> option R) (O : optimiser R) p0 lower upper fx multinom w,
-  opt ll_multinom ll_plain O p0 lower upper (Some fx) multinom false = Some w ->
+  forall (ll_multinom ll_plain : list R -> option R) (O : optimiser R) p0 lower upper fx multinom lg w d0,
+  opt ll_multinom ll_plain O p0 lower upper (Some fx) multinom lg = Some w ->
+  project_down p0 (Some fx) = Some d0 ->
+  (lg = true -> positive d0 /\ Forall pos_opt (dflt_bounds lower (length p0)) /\ Forall pos_opt (dflt_bounds upper (length p0))) ->
   contract true (w_lo w) (w_hi w) (w_start w)
-           (fun x => fst (opt_objective ll_multinom ll_plain multinom (Some fx) false x)) (w_oracle w) ->
+           (fun x => fst (opt_objective ll_multinom ll_plain multinom (Some fx) lg x)) (w_oracle w) ->
   free_within fx (dflt_bounds lower (length p0)) (dflt_bounds upper (length p0)) (w_x w).
 Proof. exact opt_free_entries_within_bounds. Qed.
 
-(** *** NLopt_mod.opt, log_opt=True, as written: what still holds (the start is returned) ... *)
+(** *** the snapshot's opt: right with log_opt=False ... *)
+Theorem C12_opt_snapshot_nolog_contract :
+  forall (ll_multinom ll_plain : list R -> option R) (O : optimiser R) p0 lower upper fixed multinom w,
+  opt_snapshot ll_multinom ll_plain O p0 lower upper fixed multinom false = Some w ->
+  contract true (w_lo w) (w_hi w) (w_start w)
+           (fun x => fst (opt_objective ll_multinom ll_plain multinom fixed false x)) (w_oracle w) ->
+  agrees (w_x w) fixed /\
+  (exists xf, w_x w = project_up 0 xf fixed /\ box_ok (w_lo w) (w_hi w) xf = true) /\
+  ll_guard ll_multinom ll_plain multinom (w_x w) = w_f w /\
+  ll_guard ll_multinom ll_plain multinom (subst_fixed p0 fixed) <= w_f w /\
+  hd_error (w_evals w) = Some (subst_fixed p0 fixed).
+Proof. exact opt_snapshot_nolog_contract. Qed.
+
+(** ... with log_opt=True: what still held (the start is returned) ... *)
 Theorem C12_opt_log_partial :
   forall (ll_multinom ll_plain : list R -> option R) (O : optimiser R) p0 lower upper fixed multinom w d0,
-  opt ll_multinom ll_plain O p0 lower upper fixed multinom true = Some w ->
+  opt_snapshot ll_multinom ll_plain O p0 lower upper fixed multinom true = Some w ->
   project_down p0 fixed = Some d0 -> positive d0 ->
   contract true (w_lo w) (w_hi w) (w_start w)
            (fun x => fst (opt_objective ll_multinom ll_plain multinom fixed true x)) (w_oracle w) ->
@@ -76,29 +96,16 @@ Theorem C12_opt_log_partial :
 Proof. exact opt_log_partial. Qed.
 Print Assumptions C12_opt_log_partial.
 
-(** ... and the clause that fails: likelihood of the returned vector <> reported optimum (finding) *)
+(** ... and the clause that failed: likelihood of the returned vector <> reported optimum (finding, fixed by c501335) *)
 Theorem C12_opt_log_reported_value_refuted :
   exists (ll : list R -> option R) (O : optimiser R) p0 lower upper w,
-    opt ll ll O p0 (Some lower) (Some upper) None false true = Some w /\
+    opt_snapshot ll ll O p0 (Some lower) (Some upper) None false true = Some w /\
     contract true (w_lo w) (w_hi w) (w_start w) (fun x => fst (opt_objective ll ll false None true x)) (w_oracle w) /\
     ll_guard ll ll false (w_x w) <> w_f w.
 Proof. exact opt_log_reported_value_refuted. Qed.
 Print Assumptions C12_opt_log_reported_value_refuted.
 
-(** with the line repaired (xopt = np.exp(xopt)) all clauses hold for log_opt on and off *)
-Theorem C12_opt_repaired_contract :
-  forall (ll_multinom ll_plain : list R -> option R) (O : optimiser R) p0 lower upper fixed multinom lg w d0,
-  opt_repaired ll_multinom ll_plain O p0 lower upper fixed multinom lg = Some w ->
-  project_down p0 fixed = Some d0 -> (lg = true -> positive d0) ->
-  contract true (w_lo w) (w_hi w) (w_start w)
-           (fun x => fst (opt_objective ll_multinom ll_plain multinom fixed lg x)) (w_oracle w) ->
-  agrees (w_x w) fixed /\
-  (exists xf, w_x w = project_up 0 (tr lg xf) fixed /\ box_ok (w_lo w) (w_hi w) xf = true) /\
-  ll_guard ll_multinom ll_plain multinom (w_x w) = w_f w /\
-  ll_guard ll_multinom ll_plain multinom (subst_fixed p0 fixed) <= w_f w /\
-  hd_error (w_evals w) = Some (subst_fixed p0 fixed).
-Proof. exact opt_repaired_contract. Qed.
-
+(** every combination of the two repaired lines of opt: free entries within the user's bounds *)
 Theorem C12_opt_gen_free_entries_within_bounds :
   forall (ll_multinom ll_plain : list R -> option R) repaired replb (O : optimiser R) p0 lower upper fx multinom lg w d0,
   opt_gen ll_multinom ll_plain repaired replb O p0 lower upper (Some fx) multinom lg = Some w ->
@@ -131,18 +138,18 @@ Theorem C12_scipy_contract :
 Proof. exact scipy_contract. Qed.
 Print Assumptions C12_scipy_contract.
 
-(** ... which covers every wrapper except optimize_lbfgsb as written *)
+(** ... which covers every wrapper of the current code (and of the snapshot except its optimize_lbfgsb) *)
 Theorem C12_coherent_wrappers :
   coherent cfg_optimize /\ coherent cfg_optimize_log /\ coherent cfg_optimize_log_lbfgsb /\ coherent cfg_optimize_log_fmin /\
-  coherent cfg_optimize_log_powell /\ coherent cfg_optimize_cons /\ coherent cfg_optimize_lbfgsb_repaired /\
-  coherent cfg_optimize_log_lbfgsb_repaired /\ ~ coherent cfg_optimize_lbfgsb.
+  coherent cfg_optimize_log_powell /\ coherent cfg_optimize_cons /\ coherent cfg_optimize_lbfgsb /\
+  coherent cfg_optimize_log_lbfgsb_snapshot /\ ~ coherent cfg_optimize_lbfgsb_snapshot.
 Proof. exact coherent_wrappers. Qed.
 
 Theorem C12_optimize_lbfgsb_first_evaluation_refuted :
   exists (ll : list R -> option R) (O : optimiser R) p0 w,
-    optimize_lbfgsb ll ll O p0 None None None false 1 = Some w /\
+    optimize_lbfgsb_snapshot ll ll O p0 None None None false 1 = Some w /\
     contract false (w_lo w) (w_hi w) (w_start w)
-             (fun x => fst (scipy_objective ll ll cfg_optimize_lbfgsb None None false None 1 x)) (w_oracle w) /\
+             (fun x => fst (scipy_objective ll ll cfg_optimize_lbfgsb_snapshot None None false None 1 x)) (w_oracle w) /\
     hd_error (w_evals w) <> Some p0.
 Proof. exact optimize_lbfgsb_first_evaluation_refuted. Qed.
 Print Assumptions C12_optimize_lbfgsb_first_evaluation_refuted.
@@ -172,36 +179,38 @@ Proof. exact grid_contract_thm. Qed.
 
 Theorem C12_optimize_grid_full_output_one_parameter_refuted :
   forall (ll : list R -> option R) (O : grid_optimiser R) (g : R) rest fixed multinom,
-    optimize_grid ll ll O ([g] :: rest) fixed multinom true = None.
+    optimize_grid_snapshot ll ll O ([g] :: rest) fixed multinom true = None.
 Proof. exact optimize_grid_full_output_one_parameter_refuted. Qed.
 
-(** *** perturb_params *)
+(** *** perturb_params: the current code (sign-aware 1% margins) stays in the box for bounds of any sign ... *)
 Theorem C12_perturb_in_bounds : forall params fold us lb ub,
   length us = length params -> length lb = length params -> length ub = length params ->
-  Forall2 sign_ok lb ub ->
+  Forall2 (fun l u => forall a c, l = Some a -> u = Some c -> a <= shrink_hi true c) lb ub ->
   in_bounds (Some lb) (Some ub) (perturb_params params fold us (Some lb) (Some ub)) = true.
 Proof. exact perturb_in_bounds. Qed.
 Print Assumptions C12_perturb_in_bounds.
 
-Theorem C12_perturb_negative_bound_refuted :
-  exists params fold us lb ub,
-    in_bounds (Some lb) (Some ub) params = true /\ Forall (fun u => 0 <= u < 1) us /\
-    in_bounds (Some lb) (Some ub) (perturb_params params fold us (Some lb) (Some ub)) = false.
-Proof. exact perturb_negative_bound_refuted. Qed.
-Print Assumptions C12_perturb_negative_bound_refuted.
-
-Theorem C12_perturb_narrow_box_refuted :
+(** ... unless the box is narrower than the two margins (known finding perturb_params:narrow-box; snapshot and current code) *)
+Theorem C12_perturb_narrow_box_refuted : forall repaired,
   exists params fold us lb ub,
     in_bounds (Some lb) (Some ub) params = true /\ Forall (fun u => 0 <= u < 1) us /\
     Forall2 (fun l u => forall a c, l = Some a -> u = Some c -> 0 < a <= c) lb ub /\
-    in_bounds (Some lb) (Some ub) (perturb_params params fold us (Some lb) (Some ub)) = false.
+    in_bounds (Some lb) (Some ub) (perturb_gen repaired params fold us (Some lb) (Some ub)) = false.
 Proof. exact perturb_narrow_box_refuted. Qed.
 
-Theorem C12_perturb_repaired_in_bounds : forall params fold us lb ub,
+(** the snapshot (1.01*lower, 0.99*upper): in bounds for non-negative bounds only *)
+Theorem C12_perturb_snapshot_in_bounds : forall params fold us lb ub,
   length us = length params -> length lb = length params -> length ub = length params ->
-  Forall2 (fun l u => forall a c, l = Some a -> u = Some c -> a <= shrink_hi true c) lb ub ->
-  in_bounds (Some lb) (Some ub) (perturb_params_repaired params fold us (Some lb) (Some ub)) = true.
-Proof. exact perturb_repaired_in_bounds. Qed.
+  Forall2 sign_ok lb ub ->
+  in_bounds (Some lb) (Some ub) (perturb_params_snapshot params fold us (Some lb) (Some ub)) = true.
+Proof. exact perturb_snapshot_in_bounds. Qed.
+
+Theorem C12_perturb_negative_bound_refuted :
+  exists params fold us lb ub,
+    in_bounds (Some lb) (Some ub) params = true /\ Forall (fun u => 0 <= u < 1) us /\
+    in_bounds (Some lb) (Some ub) (perturb_params_snapshot params fold us (Some lb) (Some ub)) = false.
+Proof. exact perturb_negative_bound_refuted. Qed.
+Print Assumptions C12_perturb_negative_bound_refuted.
 
 (** *** the contract is satisfiable: the scripted optimiser of the correspondence check honours it whenever its
         script stays in the box; and the boolean contract evaluated on every correspondence case implies it *)
